@@ -410,7 +410,45 @@ module N =
     match compare x y with
     | Gt -> false
     | _ -> true
+
+  (** val ltb : n -> n -> bool **)
+
+  let ltb x y =
+    match compare x y with
+    | Lt -> true
+    | _ -> false
  end
+
+(** val zero : char **)
+
+let zero = '\000'
+
+(** val one : char **)
+
+let one = '\001'
+
+(** val shift : bool -> char -> char **)
+
+let shift = fun b c -> Char.chr (((Char.code c) lsl 1) land 255 + if b then 1 else 0)
+
+(** val ascii_of_pos : positive -> char **)
+
+let ascii_of_pos =
+  let rec loop n0 p =
+    match n0 with
+    | O -> zero
+    | S n' ->
+      (match p with
+       | XI p' -> shift true (loop n' p')
+       | XO p' -> shift false (loop n' p')
+       | XH -> one)
+  in loop (S (S (S (S (S (S (S (S O))))))))
+
+(** val ascii_of_N : n -> char **)
+
+let ascii_of_N = function
+| N0 -> zero
+| Npos p -> ascii_of_pos p
 
 (** val n_of_digits : bool list -> n **)
 
@@ -1104,6 +1142,24 @@ let ends_with_char c s =
   | Some d -> (=) c d
   | None -> false
 
+(** val ascii_lower : char -> char **)
+
+let ascii_lower c =
+  if is_upper c
+  then ascii_of_N (N.add (ascii_n c) (Npos (XO (XO (XO (XO (XO XH)))))))
+  else c
+
+(** val str_map : (char -> char) -> char list -> char list **)
+
+let rec str_map f = function
+| [] -> []
+| c::s' -> (f c)::(str_map f s')
+
+(** val str_lower : char list -> char list **)
+
+let str_lower =
+  str_map ascii_lower
+
 (** val str_join : char list -> char list list -> char list **)
 
 let rec str_join sep = function
@@ -1137,6 +1193,21 @@ let str_split c s =
 
 let str_contains_char c s =
   str_existsb ((=) c) s
+
+(** val str_ltb : char list -> char list -> bool **)
+
+let rec str_ltb a b =
+  match a with
+  | [] -> (match b with
+           | [] -> false
+           | _::_ -> true)
+  | x::a' ->
+    (match b with
+     | [] -> false
+     | y::b' ->
+       if N.ltb (ascii_n x) (ascii_n y)
+       then true
+       else if N.ltb (ascii_n y) (ascii_n x) then false else str_ltb a' b')
 
 (** val z_to_string : z -> char list **)
 
@@ -3018,6 +3089,190 @@ let variation_points m =
   filter (fun fv -> negb (Nat.eqb (length (snd fv)) O))
     (map (fun f -> (f, (variants f))) (subfeatures m.root))
 
+(** val insert :
+    ('a1 -> 'a2) -> ('a2 -> 'a2 -> bool) -> 'a1 -> 'a1 list -> 'a1 list **)
+
+let rec insert key ltb0 x l = match l with
+| [] -> x :: []
+| y :: ys ->
+  if ltb0 (key x) (key y) then x :: l else y :: (insert key ltb0 x ys)
+
+(** val sort_by :
+    ('a1 -> 'a2) -> ('a2 -> 'a2 -> bool) -> 'a1 list -> 'a1 list **)
+
+let sort_by key ltb0 l =
+  fold_right (insert key ltb0) [] l
+
+(** val list_eqb : ('a1 -> 'a1 -> bool) -> 'a1 list -> 'a1 list -> bool **)
+
+let rec list_eqb eqb1 l1 l2 =
+  match l1 with
+  | [] -> (match l2 with
+           | [] -> true
+           | _ :: _ -> false)
+  | x :: xs ->
+    (match l2 with
+     | [] -> false
+     | y :: ys -> (&&) (eqb1 x y) (list_eqb eqb1 xs ys))
+
+(** val strs_ltb : char list list -> char list list -> bool **)
+
+let rec strs_ltb a b =
+  match a with
+  | [] -> (match b with
+           | [] -> false
+           | _ :: _ -> true)
+  | x :: xs ->
+    (match b with
+     | [] -> false
+     | y :: ys ->
+       if str_ltb x y
+       then true
+       else if str_ltb y x then false else strs_ltb xs ys)
+
+(** val sort_strs : char list list -> char list list **)
+
+let sort_strs l =
+  sort_by (fun s -> s) str_ltb l
+
+(** val dedup_sorted : char list list -> char list list **)
+
+let rec dedup_sorted l = match l with
+| [] -> l
+| x :: rest ->
+  (match rest with
+   | [] -> l
+   | y :: _ ->
+     if eqb0 x y then dedup_sorted rest else x :: (dedup_sorted rest))
+
+(** val strset : char list list -> char list list **)
+
+let strset l =
+  dedup_sorted (sort_strs l)
+
+(** val feature_eqb : feature -> feature -> bool **)
+
+let feature_eqb a b =
+  eqb0 (name a) (name b)
+
+type orel = char list * relation
+
+(** val child_names : relation -> char list list **)
+
+let child_names r =
+  map name (r_children r)
+
+(** val relation_eqb : orel -> orel -> bool **)
+
+let relation_eqb a b =
+  (&&)
+    ((&&)
+      ((&&) (eqb0 (fst a) (fst b))
+        (list_eqb eqb0 (sort_strs (child_names (snd a)))
+          (sort_strs (child_names (snd b)))))
+      (Z.eqb (r_min (snd a)) (r_min (snd b))))
+    (Z.eqb (r_max (snd a)) (r_max (snd b)))
+
+type rkey = ((char list * char list list) * z) * z
+
+(** val relation_hash_key : orel -> rkey **)
+
+let relation_hash_key a =
+  ((((fst a), (strset (child_names (snd a)))), (r_min (snd a))),
+    (r_max (snd a)))
+
+(** val relation_sort_key : orel -> rkey **)
+
+let relation_sort_key a =
+  ((((fst a), (sort_strs (child_names (snd a)))), (r_min (snd a))),
+    (r_max (snd a)))
+
+(** val rkey_ltb : rkey -> rkey -> bool **)
+
+let rkey_ltb a b =
+  let (p, mx1) = a in
+  let (p0, mn1) = p in
+  let (p1, c1) = p0 in
+  let (p3, mx2) = b in
+  let (p4, mn2) = p3 in
+  let (p2, c2) = p4 in
+  if str_ltb p1 p2
+  then true
+  else if str_ltb p2 p1
+       then false
+       else if strs_ltb c1 c2
+            then true
+            else if strs_ltb c2 c1
+                 then false
+                 else if Z.ltb mn1 mn2
+                      then true
+                      else if Z.ltb mn2 mn1 then false else Z.ltb mx1 mx2
+
+(** val ctc_key : (char list -> char list) -> ctc -> char list **)
+
+let ctc_key lower c =
+  lower (node_str c.c_ast)
+
+(** val ctc_eqb : (char list -> char list) -> ctc -> ctc -> bool **)
+
+let ctc_eqb lower a b =
+  eqb0 (ctc_key lower a) (ctc_key lower b)
+
+(** val fm_relations : fm -> orel list **)
+
+let fm_relations m =
+  map (fun pr -> ((name (fst pr)), (snd pr))) (subrelations_ctx m.root)
+
+(** val fm_eqb : (char list -> char list) -> fm -> fm -> bool **)
+
+let fm_eqb lower a b =
+  (&&)
+    ((&&)
+      ((&&) (feature_eqb a.root b.root)
+        (list_eqb feature_eqb (sort_by name str_ltb (get_features a))
+          (sort_by name str_ltb (get_features b))))
+      (list_eqb relation_eqb
+        (sort_by relation_sort_key rkey_ltb (fm_relations a))
+        (sort_by relation_sort_key rkey_ltb (fm_relations b))))
+    (list_eqb (ctc_eqb lower) (sort_by (ctc_key lower) str_ltb a.ctcs)
+      (sort_by (ctc_key lower) str_ltb b.ctcs))
+
+(** val rkey_eqb : rkey -> rkey -> bool **)
+
+let rkey_eqb a b =
+  let (p, mx1) = a in
+  let (p0, mn1) = p in
+  let (p1, c1) = p0 in
+  let (p3, mx2) = b in
+  let (p4, mn2) = p3 in
+  let (p2, c2) = p4 in
+  (&&) ((&&) ((&&) (eqb0 p1 p2) (list_eqb eqb0 c1 c2)) (Z.eqb mn1 mn2))
+    (Z.eqb mx1 mx2)
+
+(** val dedup_rkeys : rkey list -> rkey list **)
+
+let rec dedup_rkeys l = match l with
+| [] -> l
+| x :: rest ->
+  (match rest with
+   | [] -> l
+   | y :: _ ->
+     if rkey_eqb x y then dedup_rkeys rest else x :: (dedup_rkeys rest))
+
+(** val rkeyset : rkey list -> rkey list **)
+
+let rkeyset l =
+  dedup_rkeys (sort_by (fun k -> k) rkey_ltb l)
+
+(** val fm_hash_key :
+    (char list -> char list) -> fm -> ((char list * char list list) * rkey
+    list) * char list list **)
+
+let fm_hash_key lower m =
+  ((((name m.root), (strset (map name (get_features m)))),
+    (rkeyset (map relation_hash_key (fm_relations m)))),
+    (strset (map (ctc_key lower) m.ctcs)))
+
 (** val e_aval : aval -> sexp **)
 
 let rec e_aval = function
@@ -3773,6 +4028,66 @@ let op_sem m =
       (map (fun b -> SList (map (fun x -> SStr x) (selected_names m.root b)))
         (confs m.root))) :: [])) :: []))
 
+(** val e_matrix : ('a1 -> 'a2 -> bool) -> 'a1 list -> 'a2 list -> sexp **)
+
+let e_matrix f l1 l2 =
+  SList (map (fun a -> e_bits (map (f a) l2)) l1)
+
+(** val hk_eqb :
+    (((char list * char list list) * rkey list) * char list list) ->
+    (((char list * char list list) * rkey list) * char list list) -> bool **)
+
+let hk_eqb a b =
+  let (p, c1) = a in
+  let (p0, k1) = p in
+  let (r1, f1) = p0 in
+  let (p1, c2) = b in
+  let (p2, k2) = p1 in
+  let (r2, f2) = p2 in
+  (&&)
+    ((&&) ((&&) (eqb0 r1 r2) (list_eqb eqb0 f1 f2)) (list_eqb rkey_eqb k1 k2))
+    (list_eqb eqb0 c1 c2)
+
+(** val op_eqq : fm -> fm -> sexp **)
+
+let op_eqq a b =
+  e_tag ('e'::('q'::('q'::[])))
+    ((e_tag ('e'::('q'::[])) ((e_bool (fm_eqb str_lower a b)) :: [])) :: (
+    (e_tag ('e'::('q'::('_'::('s'::('y'::('m'::[]))))))
+      ((e_bool (fm_eqb str_lower b a)) :: [])) :: ((e_tag
+                                                     ('e'::('q'::('_'::('r'::('e'::('f'::('l'::[])))))))
+                                                     ((e_bool
+                                                        ((&&)
+                                                          (fm_eqb str_lower a
+                                                            a)
+                                                          (fm_eqb str_lower b
+                                                            b))) :: [])) :: (
+    (e_tag ('h'::('a'::('s'::('h'::('_'::('e'::('q'::[])))))))
+      ((e_bool (hk_eqb (fm_hash_key str_lower a) (fm_hash_key str_lower b))) :: [])) :: (
+    (e_tag
+      ('f'::('e'::('a'::('t'::('u'::('r'::('e'::('s'::('_'::('e'::('q'::[])))))))))))
+      ((e_matrix feature_eqb (get_features a) (get_features b)) :: [])) :: (
+    (e_tag
+      ('r'::('e'::('l'::('a'::('t'::('i'::('o'::('n'::('s'::('_'::('e'::('q'::[]))))))))))))
+      ((e_matrix relation_eqb (fm_relations a) (fm_relations b)) :: [])) :: (
+    (e_tag
+      ('r'::('e'::('l'::('a'::('t'::('i'::('o'::('n'::('s'::('_'::('h'::('a'::('s'::('h'::('_'::('e'::('q'::[])))))))))))))))))
+      ((e_matrix (fun x y ->
+         rkey_eqb (relation_hash_key x) (relation_hash_key y))
+         (fm_relations a) (fm_relations b)) :: [])) :: ((e_tag
+                                                          ('r'::('e'::('l'::('a'::('t'::('i'::('o'::('n'::('s'::('_'::('l'::('t'::[]))))))))))))
+                                                          ((e_matrix
+                                                             (fun x y ->
+                                                             rkey_ltb
+                                                               (relation_sort_key
+                                                                 x)
+                                                               (relation_sort_key
+                                                                 y))
+                                                             (fm_relations a)
+                                                             (fm_relations b)) :: [])) :: (
+    (e_tag ('c'::('t'::('c'::('s'::('_'::('e'::('q'::[])))))))
+      ((e_matrix (ctc_eqb str_lower) a.ctcs b.ctcs) :: [])) :: [])))))))))
+
 (** val bad : char list -> sexp **)
 
 let bad msg =
@@ -3831,21 +4146,43 @@ let dispatch = function
                                    | None -> bad ('f'::('m'::[])))
                                 | _ :: _ ->
                                   bad ('a'::('r'::('i'::('t'::('y'::[])))))))
-                       else if eqb0 op
-                                 ('e'::('c'::('h'::('o'::('_'::('f'::('m'::[])))))))
+                       else if eqb0 op ('e'::('q'::('q'::[])))
                             then (match args with
                                   | [] ->
                                     bad ('a'::('r'::('i'::('t'::('y'::[])))))
-                                  | m :: l0 ->
+                                  | m1 :: l0 ->
                                     (match l0 with
                                      | [] ->
-                                       (match d_fm m with
-                                        | Some m' -> e_fm m'
-                                        | None -> bad ('f'::('m'::[])))
-                                     | _ :: _ ->
                                        bad
-                                         ('a'::('r'::('i'::('t'::('y'::[])))))))
-                            else bad
-                                   ('u'::('n'::('k'::('n'::('o'::('w'::('n'::(' '::('o'::('p'::[]))))))))))
+                                         ('a'::('r'::('i'::('t'::('y'::[])))))
+                                     | m2 :: l1 ->
+                                       (match l1 with
+                                        | [] ->
+                                          (match d_fm m1 with
+                                           | Some a ->
+                                             (match d_fm m2 with
+                                              | Some b -> op_eqq a b
+                                              | None -> bad ('f'::('m'::[])))
+                                           | None -> bad ('f'::('m'::[])))
+                                        | _ :: _ ->
+                                          bad
+                                            ('a'::('r'::('i'::('t'::('y'::[]))))))))
+                            else if eqb0 op
+                                      ('e'::('c'::('h'::('o'::('_'::('f'::('m'::[])))))))
+                                 then (match args with
+                                       | [] ->
+                                         bad
+                                           ('a'::('r'::('i'::('t'::('y'::[])))))
+                                       | m :: l0 ->
+                                         (match l0 with
+                                          | [] ->
+                                            (match d_fm m with
+                                             | Some m' -> e_fm m'
+                                             | None -> bad ('f'::('m'::[])))
+                                          | _ :: _ ->
+                                            bad
+                                              ('a'::('r'::('i'::('t'::('y'::[])))))))
+                                 else bad
+                                        ('u'::('n'::('k'::('n'::('o'::('w'::('n'::(' '::('o'::('p'::[]))))))))))
       | _ -> bad ('s'::('h'::('a'::('p'::('e'::[])))))))
 | _ -> bad ('s'::('h'::('a'::('p'::('e'::[])))))
